@@ -256,9 +256,12 @@ PROPS = {
     ),
     "C08": dict(
         proof_modules=["KsVerif.Proofs.C08"],
-        families=["redis.split", "redis.convsplit", "amqp.split", "kafka.split", "http.split"],
+        families=["redis.split", "redis.convsplit", "amqp.split", "kafka.split", "http.split", "http.rawsplit"],
         rule="kafka.split: the streams of kafka.conv / kafka.raw, every two-piece split of short halves, random pieces down to "
              "single bytes, truncated halves; http.split: http.conv conversations in reads of 1 .. 4100 bytes; "
+             "http.rawsplit: streams that are not well-formed conversations (bad request / status lines, bad header lines, garbage and "
+             "truncations between well-formed messages) whole against every two-piece split, one byte per read and random pieces - the "
+             "dissector itself on the unsplit bytes is the reference; "
              "redis.split: the same byte streams as redis.raw delivered under every two-piece split (short streams, "
              "exhaustive) and random multi-piece splits down to single bytes; the observation must equal the one the "
              "bytes alone determine; redis.convsplit adds random segmentations of well-formed conversations; "
@@ -268,8 +271,10 @@ PROPS = {
     ),
     "C09": dict(
         proof_modules=["KsVerif.Proofs.C09"],
-        families=["sched.match.redis", "sched.match.http"],
-        rule="every schedule of the two halves of a connection at the yield points (each register is one step "
+        families=["sched.match.redis", "sched.match.http", "sched.match.http10", "sched.match.amqp", "sched.excl"],
+        rule="sched.excl: with one half parked AT a yield point inside the matcher's locked region, the other half must block "
+             "(that the lock excludes is observed on the running code, not read off the lock statements); "
+             "every schedule of the two halves of a connection at the yield points (each register is one step "
              "under the matcher mutex), i.e. every order-preserving merge of the two message sequences, exhaustively "
              "for 1-2 exchanges (quick) / 1-3 (thorough), random merges for 3-8 exchanges; non-trivial = the schedule "
              "switches goroutine at least twice",
@@ -278,8 +283,9 @@ PROPS = {
     ),
     "C10": dict(
         proof_modules=["KsVerif.Proofs.C10"],
-        families=["sched.match.redis", "sched.match.http"],
-        rule="the real Dissect of both halves runs in two controlled goroutines sharing matcher, counters and emitter; "
+        families=["sched.match.redis", "sched.match.http", "sched.match.http10", "sched.match.amqp", "sched.excl"],
+        rule="sched.excl: with one half parked AT a yield point inside the matcher's locked region, the other half must block; "
+             "the real Dissect of both halves runs in two controlled goroutines sharing matcher, counters and emitter; "
              "every interleaving at the yield points, exhaustively (stateless DFS) for 1-2 exchanges (quick) / 1-3 "
              "(thorough), seeded random schedules for 3-8 exchanges; trace, items, indices, residue and statistics "
              "compared with the Lean interpreter of the regenerated shapes; non-trivial = at least two goroutine switches",
@@ -288,8 +294,9 @@ PROPS = {
     ),
     "C19": dict(
         proof_modules=["KsVerif.Proofs.C19"],
-        families=["sched.emit"],
-        rule="the real Emitting.Emit called from 2-3 controlled goroutines on one or two streams sharing AppStats; every "
+        families=["sched.emit", "sched.excl"],
+        rule="sched.excl: with one goroutine parked between reading the index and incrementing the count, a second Emit on the "
+             "same Emitting must block; the real Emitting.Emit called from 2-3 controlled goroutines on one or two streams sharing AppStats; every "
              "interleaving at the yield points for small N (exhaustive DFS), seeded random schedules up to 4 tasks x 12 "
              "emits; non-trivial = at least two goroutine switches",
         trusted_base=SCHED_TB + LIB,
